@@ -308,6 +308,38 @@ def parser_part(R, rng, quick):
     R.case(None)
 
 
+def deep_trees(R):
+    """spec-valid dictionaries nesting 450 / 600 / 1000 forks (encoded by the reference under a raised recursion limit), parsed by the library under Python's default limit"""
+    import sys
+    from pytoniq_core.boc.hashmap.parse import parse_hashmap
+    from pytoniq_core.boc import Builder
+    w = 1023
+    for depth in (450, 600, 1000):
+        old = sys.getrecursionlimit()
+        sys.setrecursionlimit(30000)
+        try:
+            m = {u((1 << i) - 1, w): (u(i % 251, 8), []) for i in range(1, depth + 1)}
+            tree = dictref.encode(m, w)
+            cell = bridge.to_lib(tree, 'builder')
+        finally:
+            sys.setrecursionlimit(1000)
+        try:
+            W = {'width': w, 'nested_forks': depth, 'recursion_limit': 1000}
+            for cname, f in (('parse_hashmap', lambda: {k: v.load_uint(8) for k, v in parse_hashmap(cell.begin_parse(), w).items()}),
+                             ('load_dict', lambda: {u(k, w): v.load_uint(8) for k, v in Builder().store_dict(cell).end_cell().begin_parse().load_dict(w).items()})):
+                st, got = mon.call(f)
+                R.counters['oracle_evaluations'] += 1
+                R.count('deep_tree_cases')
+                if st == 'exc':
+                    R.exc(got)
+                    R.violation('recursion-limit-nested-forks-parse' if isinstance(got, RecursionError) else f'deep-tree-{cname}-raises-{type(got).__name__}',
+                                f'{cname} raised {type(got).__name__} on a spec-valid dictionary nesting {depth} forks', W)
+                    continue
+                R.check(got == {k: int(v[0], 2) for k, v in m.items()}, f'deep-tree-differs-{cname}', f'{cname}: a dictionary nesting {depth} forks is parsed to other pairs', W)
+        finally:
+            sys.setrecursionlimit(old)
+
+
 def run(R):
     rng = R.rng
     quick = R.tier == 'quick'
@@ -317,7 +349,7 @@ def run(R):
               'optionally as HashmapAug with uint16 extras (with and without a reference inside the extra), optionally with random subtrees replaced by pruned branches; every plain/augmented parser entry '
               'point must return exactly the leaves (and extras) of the unpruned part. distinct = distinct (n,m,contents) or (width, keys, variant, label kinds); '
               'non-trivial = all')
-    R.assumptions = ['R4 (lib/dictref.py) implements hashmap.tlb and the label selection of TON crypto/vm/dict.cpp', 'fork nesting <= 400',
+    R.assumptions = ['R4 (lib/dictref.py) implements hashmap.tlb and the label selection of TON crypto/vm/dict.cpp', 'the general workload keeps fork nesting <= 400; dictionaries nesting 450 / 600 / 1000 forks are parsed separately under the default recursion limit (RecursionError beyond ~490 is a recorded known finding)',
                      'order of returned augmentation values is not judged (multiset comparison)']
     inv = bridge.CellInvariant(R).install()
     try:
@@ -326,6 +358,8 @@ def run(R):
         parser_part(R, rng, quick)
     finally:
         inv.uninstall()
+    if R.shard == 0:
+        deep_trees(R)
     R.floor('canonical_cases', 5000 if quick else 100000)
     R.floor('canonical_random_maps', 100)
     R.floor('canonical_history_steps', 100)
